@@ -57,6 +57,7 @@ type checkCfg struct {
 	Outside     []string
 	Level       string
 	ReplayCwd   string // working directory for the native replay binary (default: the package directory)
+	WIP         bool   // not claimed yet: tools/genmanifest.py skips the check
 	// Parts: further harness groups of the same property that live in another package
 	// (own overlay files, options and engine); reports are merged into one verdict
 	Parts []partCfg
